@@ -293,9 +293,63 @@ impl<'a> BatchGen<'a> {
         }
     }
 
+    /// A crowd: far more simultaneous caller threads than any per-thread or
+    /// per-slot structure is likely to be dimensioned for (129..260), each doing
+    /// one small conversion drawn from a handful of (text, settings) keys.
+    fn gen_crowd_run(&mut self, rng: &mut Rng, idx: u64) -> RunDesc {
+        let texts: Vec<String> = vec![
+            "+--+\n|  |\n+--+\n".into(),
+            " .-.\n(   )\n '-'\n".into(),
+            "*-->o  \"t\"\n".into(),
+            "+-----+\n| {a} |\n+-----+\n# Legend:\na = {fill:red}\n".into(),
+        ];
+        let mut keys = vec![];
+        for _ in 0..6 {
+            keys.push((rng.usize_below(texts.len()), one_field_settings(rng), if rng.chance(1, 2) { 3u8 } else { 4u8 }));
+        }
+        // threads[0..4]: long-lived callers that keep coming back with the same
+        // request; the middle: a churn of short-lived threads (thread ids, slots
+        // and per-thread structures get used up and recycled); the last 8:
+        // late-comers that run while the long-lived ones are still at work.
+        // (c07s executes runs with more than 32 threads in these three phases.)
+        let n = rng.urange(100, 300);
+        let mut threads = vec![];
+        for i in 0..n {
+            let (t, s, e) = rng.pick(&keys).clone();
+            let first = Op { entry: e, text: t, settings: s, w: 320.0, h: 200.0, repeat: 1 };
+            let ops = if i < 4 {
+                vec![first; 8]
+            } else if i >= n - 8 {
+                let (t2, s2, e2) = rng.pick(&keys).clone();
+                vec![first.clone(), Op { entry: e2, text: t2, settings: s2, w: 320.0, h: 200.0, repeat: 1 }, first]
+            } else {
+                vec![first]
+            };
+            threads.push(ops);
+        }
+        RunDesc {
+            idx,
+            texts,
+            // warm tables and (mostly) no scheduling points at table accesses: what is
+            // left are the code's own synchronisation operations, so that the few
+            // steps that matter are not drowned in thousands of irrelevant ones
+            warmup: (0..4).map(|t| Op { entry: 0, text: t, settings: SettingsSpec::default(), w: 0.0, h: 0.0, repeat: 1 }).collect(),
+            threads,
+            sched_kind: if rng.chance(1, 4) { 1 } else { 0 },
+            pct_depth: rng.urange(2, 4),
+            sched_seed: rng.next_u64(),
+            schedule: None,
+            yield_every: *rng.pick(&[1u64 << 40, 1 << 40, 1 << 40, 4096]),
+            hash_seed: rng.next_u64() | 1,
+        }
+    }
+
     /// `max_threads` = 1 for the native leg.
     pub fn gen_run(&mut self, seed: u64, idx: u64, max_threads: usize) -> RunDesc {
         let mut rng = Rng::new(simcommon::mix(seed, "c07-run", idx));
+        if max_threads > 1 && (rng.chance(1, 40) || std::env::var("VERIF_C07_CROWD").is_ok()) {
+            return self.gen_crowd_run(&mut rng, idx);
+        }
         if max_threads <= 1 && rng.chance(1, 70) {
             return self.gen_wrap_run(&mut rng, idx);
         }
